@@ -229,6 +229,18 @@ EXPLANATION["C02"] += (" E2 on STRUCTURED scripts (lists of ScriptBit values): S
                        "conditionals with missing/empty else branches and PUSHDATA1/2/4 payloads of symbolic length.")
 EXPLANATION["C10"] += (" Separately, on structured scripts, remove_codeseparators is shown to delete exactly the OP_CODESEPARATOR elements, also inside conditional branches.")
 
+# ---------------------------------------------------------------- C13 (composition layer only)
+EXPLANATION["C13"] = ("Partial: the COMPOSITION LAYER only. The primitive algorithms (sha2, sha-1, ripemd160, hmac, pbkdf2 crates) are uninterpreted functions of the bytes they are fed - their "
+                      "equality with the published algorithms is NOT decided (SAT-hard, external code). E2 executes the crate's own code from MIR: Hash::sha_256d = SHA256(SHA256(x)), "
+                      "hash_160 = RIPEMD160(SHA256(x)), the other four call the right primitive on exactly the input; the streaming adapters Sha256d / Sha256r / Hash160 give F(a||b) for "
+                      "update(a), update(b) through every finaliser (finalize_fixed, finalize_into, finalize_fixed_reset, finalize_into_reset / finalize_into_dirty), reversed mode is exactly the "
+                      "byte reversal, and after a resetting finaliser the engine is empty; the six HMAC wrappers compute HMAC_X(key, input) with the whole key; KDF::pbkdf2 maps the enum to "
+                      "PBKDF2-HMAC-SHA1/256/512 with (password, salt, rounds, output_length) in that order and stores the salt.")
+OBLIGATIONS.append(M("C13", "c13_hash_composition", {"q": "hash_layer"}, ["Hash::{sha_256,sha_1,ripemd_160,sha_512,sha_256d,hash_160}", "Hash::hmac + six *_hmac wrappers", "Sha256d/Sha256r/Hash160: Default, reverse, update, finalize_* , reset", "KDF::pbkdf2_impl"],
+                     "inputs, keys, salts, chunks: byte strings of symbolic length; both reverse modes; all finalisers; all three PBKDF2 algorithms, symbolic rounds and output length (<= 2^20)", cost=1,
+                     stubs=("E2 hash models: primitive engines (Sha256, Sha1, Ripemd160, Sha512) accumulate the bytes they are fed and finalise to an uninterpreted function of them; Hmac<T> and pbkdf2::<Hmac<T>> are uninterpreted functions of their arguments; "
+                            "the digest crate's blanket Digest impl (new/update/chain/finalize/digest) is modelled in terms of the crate's own Default/Update/FixedOutput impls",)))
+
 
 def for_property(pid):
     return [dict(o) for o in OBLIGATIONS if o["property"] == pid]
